@@ -73,6 +73,16 @@ Theorem C31_line_directives_roundtrip : forall s,
 Proof. exact line_directives_roundtrip. Qed.
 Print Assumptions C31_line_directives_roundtrip.
 
+(* the stashed placeholder '#line@N' passes through comment removal untouched at any cut outside comments:
+   the directive text (whose file name may contain comment openers) cannot confuse the comment scanner *)
+Theorem C31_placeholder_inert : forall s1 i s2, closed s1 ->
+  sc (s1 ++ (s_lineat ++ dec i) ++ s2) = sc s1 ++ (s_lineat ++ dec i) ++ sc s2.
+Proof. exact placeholder_inert. Qed.
+Print Assumptions C31_placeholder_inert.
+
+(* NOT proved: invariance of the composed _preprocess under insertion of a directive line -- it is false at the
+   positions of known finding directive_in_rewritten_construct; covered by the metamorphic test elsewhere *)
+
 (* ---- the full statement for the composed pre-processing, and why it is only partial ---- *)
 
 Definition C31_full_statement : Prop :=
